@@ -32,7 +32,7 @@ func init() {
 	})
 	register("C11", &propDef{
 		Title: "Relative resolution stays inside the package and follows path algebra",
-		Rules: []func(*Checker){ruleC11Escape, ruleC11Same, ruleC11JoinOrder, ruleC06SubpathOnly("C11.local"), ruleC11LocalForm, ruleLiteralAgreement("C11.fields", "sourceaddrs", nil)},
+		Rules: []func(*Checker){ruleC11Escape, ruleC11Same, ruleC11JoinOrder, ruleC06SubpathOnly("C11.local"), ruleC11LocalForm, ruleLiteralAgreement("C11.fields", "sourceaddrs", nil), ruleJoinOperandsAsGiven("C11.joinraw")},
 		NotDecided: []string{
 			"the path algebra itself (segment counting, composition of successive resolutions): path.Join / path.Clean are trusted library semantics",
 		},
